@@ -152,13 +152,7 @@ func (k *Kernel) execIPSet(args []string, ev *Event) {
 		ev.Exit, ev.Reject, ev.Out = 2, RejSyntax, "ipset v6.29: No command specified.\n"
 		return
 	}
-	before := ""
-	mut := func() { ev.Mutator = true; before = k.SaveSets() }
-	defer func() {
-		if ev.Mutator {
-			ev.Changed = before != k.SaveSets()
-		}
-	}()
+	mut := func() { ev.Mutator = true }
 	switch a[0] {
 	case "--version", "version", "-v", "-V", "-version":
 		ev.Out = "ipset v6.29, protocol version: 6\n"
@@ -213,6 +207,7 @@ func (k *Kernel) execIPSet(args []string, ev *Event) {
 			return
 		}
 		k.Sets[s.Name] = s
+		ev.Changed = true
 	case "add", "del", "test", "-A", "-D", "-T":
 		op := strings.TrimLeft(a[0], "-")
 		switch op {
@@ -272,10 +267,12 @@ func (k *Kernel) execIPSet(args []string, ev *Event) {
 					for i := uint32(0); i < n; i++ {
 						s.Elems[U32ToIP(ip+i)] = &Elem{IP: ip + i, Bits: 32}
 					}
+					ev.Changed = true
 				case "del":
 					for i := uint32(0); i < n; i++ {
 						delete(s.Elems, U32ToIP(ip+i))
 					}
+					ev.Changed = true
 				}
 				return
 			}
@@ -293,6 +290,7 @@ func (k *Kernel) execIPSet(args []string, ev *Event) {
 				ipsetFail(ev, RejSyntax, s.Name, "Hash is full, cannot add more elements")
 				return
 			}
+			ev.Changed = old == nil || old.NoMatch != e.NoMatch
 			s.Elems[key] = e
 		case "del":
 			if old == nil {
@@ -303,6 +301,7 @@ func (k *Kernel) execIPSet(args []string, ev *Event) {
 				return
 			}
 			delete(s.Elems, key)
+			ev.Changed = true
 		case "test":
 			in := old != nil
 			if s.modelled() {
@@ -337,6 +336,7 @@ func (k *Kernel) execIPSet(args []string, ev *Event) {
 				return
 			}
 			delete(k.Sets, n)
+			ev.Changed = true
 		}
 	case "flush", "-F", "--flush":
 		mut()
@@ -348,6 +348,9 @@ func (k *Kernel) execIPSet(args []string, ev *Event) {
 			if k.Sets[n] == nil {
 				ipsetFail(ev, RejSetMissing, n, "The set with the given name does not exist")
 				return
+			}
+			if len(k.Sets[n].Elems) > 0 {
+				ev.Changed = true
 			}
 			k.Sets[n].Elems = map[string]*Elem{}
 		}
